@@ -825,7 +825,7 @@ impl Property for C24 {
             .boxed()
     }
     fn budget(&self, tier: Tier) -> Budget {
-        Budget::new(tier.pick(2_000, 60_000), tier.pick(8, 16)).min_nontrivial(tier.pick(300, 8000)).case_timeout(90)
+        Budget::new(tier.pick(1_200, 60_000), tier.pick(8, 16)).min_nontrivial(tier.pick(200, 8000)).case_timeout(90)
     }
     fn rule(&self) -> String {
         "1-3 Parquet files (rowid = position in file) written under generated WriterProperties, sorted/clustered/random NULL-heavy data; \
@@ -839,6 +839,16 @@ impl Property for C24 {
             "the parquet ArrowWriter writes correct statistics, page indexes and bloom filters for the data".into(),
             "NaN and -0.0 are not generated".into(),
         ]
+    }
+    fn known_signature(&self, case: &Case) -> Option<String> {
+        // open finding "sparse-page-mask-topk" (see known_findings.json): row filter evaluated with the
+        // mask strategy + predicate cache + a TopK dynamic filter + batches smaller than the input
+        let o = &case.opts;
+        let q = &case.query;
+        if o.pushdown && !o.force_sel && o.pred_cache != Some(0) && o.dyn_filter && o.batch_size < 64 && q.pred.is_some() && !q.order.is_empty() && q.limit.map(|n| n > 0).unwrap_or(false) {
+            return Some("pushdown+mask+predicate-cache+topk-dynamic-filter+small-batch".into());
+        }
+        None
     }
     fn run(&self, case: &Case) -> CaseResult {
         if case.files.is_empty() || case.files.len() > 8 {
